@@ -20,18 +20,18 @@ const RepoModule = "github.com/hydraide/hydraide"
 type intrinsicFn func(fr *frame, args []value) value
 
 type Engine struct {
-	Prog     *ssa.Program
-	Pkgs     []*packages.Package
+	Prog      *ssa.Program
+	Pkgs      []*packages.Package
 	pkgByPath map[string]*ssa.Package
-	intr     map[string]intrinsicFn
+	intr      map[string]intrinsicFn
 	intrCache sync.Map // *ssa.Function -> intrinsicFn or nil marker
 	nameCache sync.Map
-	built    sync.Map
-	buildMu  sync.Mutex
-	RepoDir  string
-	LoadTime time.Duration
-	rtErrT   types.Type
-	Verbose  bool
+	built     sync.Map
+	buildMu   sync.Mutex
+	RepoDir   string
+	LoadTime  time.Duration
+	rtErrT    types.Type
+	Verbose   bool
 }
 
 // Load type-checks the given package patterns of /repo (working tree) with the harness overlay.
@@ -196,20 +196,20 @@ func (e *Engine) intrinsic(fn *ssa.Function) intrinsicFn {
 // ---------- workers and exploration ----------
 
 type Worker struct {
-	id        int
-	eng       *Engine
-	sol       *Solver
-	shared    map[*ssa.Global]*value
+	id         int
+	eng        *Engine
+	sol        *Solver
+	shared     map[*ssa.Global]*value
 	sharedInit map[*ssa.Package]bool
-	funcs     map[*ssa.Function]int
-	initSkips map[string]string
-	wg        sync.WaitGroup
-	mutexes   map[*value]*mutexState
-	conds     map[*value]*condState
-	wgs       map[*value]*wgState
-	chanN     int
-	syncMaps  map[*value]*hmap
-	onces     map[*value]*onceState
+	funcs      map[*ssa.Function]int
+	initSkips  map[string]string
+	wg         sync.WaitGroup
+	mutexes    map[*value]*mutexState
+	conds      map[*value]*condState
+	wgs        map[*value]*wgState
+	chanN      int
+	syncMaps   map[*value]*hmap
+	onces      map[*value]*onceState
 }
 
 func (w *Worker) noteInitSkip(pkg, why string) {
@@ -223,30 +223,30 @@ func (w *Worker) noteInitSkip(pkg, why string) {
 }
 
 type PathResult struct {
-	Outcome    string // ok | done | infeasible | truncated | unsupported | assumed-false | internal
-	Msg        string
-	Trail      []TrailEnt
-	Alts       [][]TrailEnt
-	Viols      []Violation
-	Covers     map[string]bool
-	Asserts    map[string]int
-	Steps      int
+	Outcome      string // ok | done | infeasible | truncated | unsupported | assumed-false | internal
+	Msg          string
+	Trail        []TrailEnt
+	Alts         [][]TrailEnt
+	Viols        []Violation
+	Covers       map[string]bool
+	Asserts      map[string]int
+	Steps        int
 	Inconclusive int
-	DecCount   map[string]int
-	Sample     *PathSample
-	SchedLen   int
+	DecCount     map[string]int
+	Sample       *PathSample
+	SchedLen     int
 }
 
 type PathSample struct {
 	HadViolation bool           `json:"had_violation,omitempty"`
 	Extra        map[string]any `json:"extra,omitempty"`
-	Harness   string        `json:"harness"`
-	Decisions int           `json:"decisions"`
-	Trail     string        `json:"trail"`
-	Inputs    []ReplayInput `json:"model_inputs,omitempty"`
-	Observed  []string      `json:"observed,omitempty"`
-	Outcome   string        `json:"outcome"`
-	PCSize    int           `json:"path_condition_conjuncts"`
+	Harness      string         `json:"harness"`
+	Decisions    int            `json:"decisions"`
+	Trail        string         `json:"trail"`
+	Inputs       []ReplayInput  `json:"model_inputs,omitempty"`
+	Observed     []string       `json:"observed,omitempty"`
+	Outcome      string         `json:"outcome"`
+	PCSize       int            `json:"path_condition_conjuncts"`
 }
 
 // Harness describes one entry point.
@@ -328,37 +328,37 @@ func trailString(t []TrailEnt) string {
 
 // ExploreStats aggregates the exploration of one harness.
 type ExploreStats struct {
-	Harness     string
-	Paths       int
-	Outcomes    map[string]int
-	Decisions   int
-	DecByKind   map[string]int
-	Viols       []Violation
-	Covers      map[string]bool
-	Asserts     map[string]int
-	Truncated   []string
-	Unsupported []string
-	Internal    []string
-	Inconclusive int
+	Harness                      string
+	Paths                        int
+	Outcomes                     map[string]int
+	Decisions                    int
+	DecByKind                    map[string]int
+	Viols                        []Violation
+	Covers                       map[string]bool
+	Asserts                      map[string]int
+	Truncated                    []string
+	Unsupported                  []string
+	Internal                     []string
+	Inconclusive                 int
 	Queries, Sat, Unsat, Unknown int
-	SolverTime  time.Duration
-	Samples     []PathSample
-	Funcs       map[string]int // name -> #instructions (interpreted) or -1 (intrinsic)
-	InitSkips   map[string]string
-	Wall        time.Duration
-	PathLimitHit bool
-	SolverErrs  []string
-	Steps       int
-	Params      map[string]int
+	SolverTime                   time.Duration
+	Samples                      []PathSample
+	Funcs                        map[string]int // name -> #instructions (interpreted) or -1 (intrinsic)
+	InitSkips                    map[string]string
+	Wall                         time.Duration
+	PathLimitHit                 bool
+	SolverErrs                   []string
+	Steps                        int
+	Params                       map[string]int
 }
 
 type ExploreOpts struct {
-	Workers  int
-	MaxPaths int
+	Workers         int
+	MaxPaths        int
 	SolverTimeoutMs int
-	Samples  int
-	Seed     int64
-	Deadline time.Time
+	Samples         int
+	Seed            int64
+	Deadline        time.Time
 	StopOnViolation bool
 }
 
